@@ -169,3 +169,19 @@ def shrink(c):
             yield {"log": [[i2, (ps2[:j] + ps2[j + 1:]) if k2 == k else ps2] for k2, (i2, ps2) in enumerate(log)]}
 
 ANCHORS = [("swh/model/toposort.py", "toposort")]
+
+
+def coq_cases(cases):
+    """the FIFO instance evaluated by vm_compute inside Coq vs the extracted driver (extraction cross-check)"""
+    from . import core
+    def coq_log(log):
+        return "[" + "; ".join("(%d%%N, [%s])" % (i, "; ".join("%d%%N" % p for p in ps)) for i, ps in log) + "]"
+    src = ("From Coq Require Import List NArith.\nFrom SWH.model Require Import Topo.\nImport ListNotations.\n" + core.COQ_CHECKSUM +
+           "\nDefinition cases : list (list rev) := [" + ";\n ".join(coq_log(c["log"]) for c in cases) + "].\n"
+           "Eval vm_compute in map (fun l => match toposort fifo l with TopoOk out => cksum (map rid out) | _ => 0%N end) cases.\n")
+    resp = core.run_driver(ID, ["topo fifo " + enc_log(c["log"]) for c in cases])
+    exp = []
+    for r in resp:
+        ids = [] if r in ("ok .",) else [int(x) for x in r[3:].split(",")] if r.startswith("ok ") else None
+        exp.append(core.py_cksum(ids) if ids is not None else 0)
+    return src, exp
